@@ -45,8 +45,12 @@ func (w *World) takeSnapshot(healthy bool) {
 	// is the library's contract for overlapping snapshots); the recorder is claimed right at
 	// the start of the call, before its first yield
 	refused := st.recorderBy != 0
+	// (a call whose destination already failed detaches its recorder before it returns: while
+	// it is still on its way out, a new call may or may not find the slot taken)
+	uncertain := refused && st.recorderFile != nil && st.recorderFile.Fired > 0
 	if !refused {
 		st.recorderBy = w.tid() + 1
+		st.recorderFile = s.file
 	}
 	defer func() {
 		if st.recorderBy == w.tid()+1 {
@@ -76,6 +80,16 @@ func (w *World) takeSnapshot(healthy bool) {
 		s.err = w.primary.Snapshot(s.file)
 	}()
 	s.applied1 = st.counts(false)
+	if uncertain {
+		if s.err != nil && s.file.Fired == 0 {
+			s.err = fmt.Errorf("refused: %v", s.err)
+			w.stats.probe("snapshot-refused-while-another-is-recording")
+			return
+		}
+		refused = false // accepted: the slot is this call's now, judged like any other call from here on
+		st.recorderBy = w.tid() + 1
+		st.recorderFile = s.file
+	}
 	if refused != (s.err != nil && s.file.Fired == 0) && s.panicked == nil {
 		if refused {
 			w.fail(violation("snapshot-overlap/not-refused", "a Snapshot that started while another one had its recorder installed returned %v (two snapshots at once share one recorder slot)", s.err))
